@@ -74,10 +74,12 @@ def cplxUpsi (am ph : RBM α n h) (dict : Char → M2 α) (s : Sample n) : C α 
   C.sum (2 ^ n) (fun k => cplxCoef am ph dict s (fun j => spaceBit n k.val j))
 
 /-- one component of `rotated_gradient`: `Re[ inv(Upsi) · Σ_τ Upsi_v[τ] · g(τ) ]` where the raw gradient entry is
-`g τ` (amplitude network, real) or `i · g τ` (phase network). -/
+`g τ` (amplitude network, real) or `i · g τ` (phase network). `inv` is `cplx.inverse` AS CODED AT HEAD (`C.invH`: operand
+scaled by its larger component, complex_wavefunction.py:178 / cplx.py:364-380); over ℝ it is the textbook inverse wherever
+`Upsi ≠ 0` (`C15_invH_eq`, `C03_rot_comp_textbook`). -/
 def cplxRotComp (am ph : RBM α n h) (dict : Char → M2 α) (s : Sample n) (isPhase : Bool)
     (g : (Fin n → Bool) → α) : α :=
-  (C.mul (C.inv (cplxUpsi am ph dict s))
+  (C.mul (C.invH (cplxUpsi am ph dict s))
     (C.sum (2 ^ n) (fun k =>
       let τ : Fin n → Bool := fun j => spaceBit n k.val j
       C.mul (cplxCoef am ph dict s τ) (if isPhase then (0, g τ) else (g τ, 0))))).1
@@ -118,7 +120,9 @@ def exactGradientsCplx (am ph : RBM α n h) (dict : Char → M2 α) (D : List (S
 
 /-! ### density matrix -/
 
-/-- `cplx.sigmoid(x, y)`: `e^z / (1 + e^z)` in complex arithmetic -/
+/-- TEXTBOOK complex logistic function `e^z / (1 + e^z)` (`cplx.sigmoid` BEFORE /repo commit 7038bfb). HEAD's
+`cplx.sigmoid` is `C.csigmoidH` (= `Cplx.sigC`, overflow-free branch form), which `piGrad` / `piGradNoExpand` call; over ℝ
+the two are equal for every argument (`C15_csigmoidH_eq`). Kept as the specification. -/
 def csigmoid (x y : α) : C α :=
   let ez : C α := (Transc.exp x * Transc.cos y, Transc.exp x * Transc.sin y)
   C.div ez (C.add C.one ez)
@@ -134,9 +138,12 @@ def gammaGrad (r : PRBM α n h a) (sgn : α) (v vp : Fin n → α) : PRBM α n h
 /-- complex PRBM-shaped record as a pair (real part, imaginary part) -/
 abbrev CPRBM (α : Type) (n h a : Nat) := PRBM α n h a × PRBM α n h a
 
-/-- `pi_grad(v, vp, phase, expand=True)` entry for one pair -/
+section
+variable [LT α] [DecidableLT α]
+/-- `pi_grad(v, vp, phase, expand=True)` entry for one pair; `sig` is `cplx.sigmoid` as coded at HEAD (`C.csigmoidH`,
+density_matrix.py:195 / cplx.py:326-345) -/
 def piGrad (am ph : PRBM α n h a) (phase : Bool) (v vp : Fin n → α) : CPRBM α n h a :=
-  let sig : Fin a → C α := fun k => csigmoid (Density.piArgRe am v vp k) (Density.piArgIm ph v vp k)
+  let sig : Fin a → C α := fun k => C.csigmoidH (Density.piArgRe am v vp k) (Density.piArgIm ph v vp k)
   let sig' : Fin a → C α := fun k => if phase then C.mul (sig k) C.I else sig k
   let temp : Fin n → α := fun j => if phase then v j - vp j else v j + vp j
   ({ W := fun _ _ => 0, U := fun k j => (1 / two) * ((sig' k).1 * temp j), b := fun _ => 0, c := fun _ => 0,
@@ -150,7 +157,7 @@ phase network's auxiliary bias `d_μ`, which `pi` and the `expand=True` branch n
 branch (`am_grads` / `ph_grads` pass `expand=True`); modelled as the code computes it, compared at auxiliary level. -/
 def piGradNoExpand (am ph : PRBM α n h a) (phase : Bool) (v vp : Fin n → α) : CPRBM α n h a :=
   let sig : Fin a → C α := fun k =>
-    csigmoid (am.mixingTerm (fun j => v j + vp j) k) (ph.mixingTerm (fun j => v j - vp j) k)
+    C.csigmoidH (am.mixingTerm (fun j => v j + vp j) k) (ph.mixingTerm (fun j => v j - vp j) k)
   let sig' : Fin a → C α := fun k => if phase then C.mul (sig k) C.I else sig k
   let temp : Fin n → α := fun j => if phase then v j - vp j else v j + vp j
   ({ W := fun _ _ => 0, U := fun k j => (1 / two) * ((sig' k).1 * temp j), b := fun _ => 0, c := fun _ => 0,
@@ -227,6 +234,8 @@ def exactGradientsDM (am ph : PRBM α n h a) (dict : Char → M2 α) (eps : α) 
     PRBM α n h a × PRBM α n h a :=
   let g := positivePhaseDM am ph dict eps D
   (g.1.sub (negPhaseExactDM am), g.2)
+
+end
 
 /-! ### contrastive-divergence batch gradient (C06) -/
 
